@@ -2310,6 +2310,15 @@ impl Zeroconf {
     ) -> Vec<u8> {
         let is_ipv4 = sock.domain() == Domain::IPV4;
 
+        // Withdraw the names in use on this interface (after possible conflict renames).
+        let registry = self.dns_registry_map.get(&intf.index);
+        let fullname = registry
+            .map_or(info.get_fullname(), |r| r.resolve_name(info.get_fullname()))
+            .to_string();
+        let hostname = registry
+            .map_or(info.get_hostname(), |r| r.resolve_name(info.get_hostname()))
+            .to_string();
+
         let mut out = DnsOutgoing::new(FLAGS_QR_RESPONSE | FLAGS_AA);
         out.add_answer_at_time(
             DnsPointer::new(
@@ -2317,7 +2326,7 @@ impl Zeroconf {
                 RRType::PTR,
                 CLASS_IN,
                 0,
-                info.get_fullname().to_string(),
+                fullname.clone(),
             ),
             0,
         );
@@ -2330,7 +2339,7 @@ impl Zeroconf {
                     RRType::PTR,
                     CLASS_IN,
                     0,
-                    info.get_fullname().to_string(),
+                    fullname.clone(),
                 ),
                 0,
             );
@@ -2338,19 +2347,19 @@ impl Zeroconf {
 
         out.add_answer_at_time(
             DnsSrv::new(
-                info.get_fullname(),
+                &fullname,
                 CLASS_IN | CLASS_CACHE_FLUSH,
                 0,
                 info.get_priority(),
                 info.get_weight(),
                 info.get_port(),
-                info.get_hostname().to_string(),
+                hostname.clone(),
             ),
             0,
         );
         out.add_answer_at_time(
             DnsTxt::new(
-                info.get_fullname(),
+                &fullname,
                 CLASS_IN | CLASS_CACHE_FLUSH,
                 0,
                 info.generate_txt(),
@@ -2371,7 +2380,7 @@ impl Zeroconf {
         for address in if_addrs {
             out.add_answer_at_time(
                 DnsAddress::new(
-                    info.get_hostname(),
+                    &hostname,
                     ip_address_rr_type(&address),
                     CLASS_IN | CLASS_CACHE_FLUSH,
                     0,
